@@ -457,7 +457,7 @@ def run(c, index, tier):
 
     nops = ch.integer("w", 4, 18, "nops")
     for k in range(nops):
-        op = ch.weighted("w", [("set", 6), ("transplant", 3), ("clone", 2), ("get", 2), ("replace-by-clone", 1), ("fit", 1)], "op")
+        op = ch.weighted("w", [("set", 6), ("transplant", 3), ("clone", 2), ("get", 2), ("replace-by-clone", 1), ("fit", 1), ("set-multi", 2)], "op")
         i = ch.draw("w", len(insts), "which")
         x = insts[i]
         if len(c.scenario["ops"]) < 24:
@@ -536,6 +536,64 @@ def run(c, index, tier):
                 d = _equal_params(before[j], after[j])
                 if d:
                     sim.viol("frame-other-instance", (), "set_params on one instance changed another instance that shares no object with it: %s" % d)
+        elif op == "set-multi":
+            # one call, several keys: a nested object is replaced AND one of
+            # its parameters is given, in either keyword order
+            before = params_of(x, "before-set-multi")
+            if before is None:
+                return
+            objs = []
+            for kk in sorted(before):
+                v = before[kk]
+                if hasattr(v, "get_params") and not isinstance(v, type) and "__" not in kk:
+                    pre = {"estimator": "e_", "clus": "c_"}.get(kk, kk + "__") if name == "ClassifierAfterKMeans" else kk + "__"
+                    if any(k2.startswith(pre) for k2 in before):
+                        objs.append((kk, pre))
+            if not objs:
+                continue
+            kk, pre = objs[ch.draw("w", len(objs), "multi-obj")]
+            try:
+                newobj = clone(before[kk])
+            except Exception:  # noqa: BLE001
+                continue
+            inner = newobj.get_params(deep=False)
+            cands = []
+            for p2 in sorted(inner):
+                ok2, nv = _new_value(ch, p2, inner[p2], None)
+                if ok2 and not hasattr(nv, "get_params") and not isinstance(nv, list):
+                    cands.append((p2, nv))
+            if not cands:
+                continue
+            p2, nv = cands[ch.draw("w", len(cands), "multi-param")]
+            old_obj = before[kk]
+            old_val = old_obj.get_params(deep=False)[p2]
+            nested_first = ch.boolean("w", 0.5, "nested-first")
+            kwargs = {}
+            if nested_first:
+                kwargs[pre + p2] = nv
+                kwargs[kk] = newobj
+            else:
+                kwargs[kk] = newobj
+                kwargs[pre + p2] = nv
+            ok, r = U.sut(c, "set_params(multi)", x.set_params, **kwargs)
+            if not ok:
+                sim.viol("set_params-raised", ("multi", type(r).__name__), "set_params(%s) raised %s" % (", ".join(kwargs), U.short_exc(r)))
+                return
+            c.probe("set_multi_nested_first" if nested_first else "set_multi_object_first")
+            if r is not x:
+                sim.viol("set_params-return", (), "set_params returned %r instead of the estimator itself" % (type(r).__name__,))
+            after = params_of(x, "after-set-multi")
+            if after is None:
+                return
+            landed = after.get(kk) is newobj and _same_value(after.get(pre + p2), nv) and _same_value(newobj.get_params(deep=False)[p2], nv)
+            if not landed:
+                sim.viol(
+                    "set-not-applied",
+                    ("multi", "nested-first" if nested_first else "object-first"),
+                    "after set_params(%s) in one call, get_params reports %s=%r (expected %r) and the object %s" % (", ".join(kwargs), pre + p2, after.get(pre + p2, "<missing>"), nv, "was replaced" if after.get(kk) is newobj else "was not replaced"),
+                )
+            if not _same_value(old_obj.get_params(deep=False)[p2], old_val):
+                sim.viol("frame", ("multi", "value-landed-on-replaced-object"), "set_params(%s) changed %s of the object that was being replaced" % (", ".join(kwargs), p2))
         elif op == "transplant":
             j = (i + 1 + ch.draw("w", len(insts) - 1, "from")) % len(insts)
             src = insts[j]
